@@ -800,7 +800,8 @@ void encode_withTree(HuffmanTree* huffmanTree, int *s, size_t length, unsigned c
 	unsigned int treeByteSize = convert_HuffTree_to_bytes_anyStates(huffmanTree,nodeCount, &treeBytes);
 	//printf("treeByteSize = %d\n", treeByteSize);
 
-	*out = (unsigned char*)malloc(length*sizeof(int)+treeByteSize);
+	//8 header bytes precede the tree, and encode() stores whole 8-byte (16-byte) windows at its write cursor
+	*out = (unsigned char*)malloc(length*sizeof(int)+treeByteSize+8+16);
 	intToBytes_bigEndian(buffer, nodeCount);
 	memcpy(*out, buffer, 4);
 	intToBytes_bigEndian(buffer, huffmanTree->stateNum/2); //real number of intervals
@@ -838,7 +839,8 @@ int encode_withTree_MSST19(HuffmanTree* huffmanTree, int *s, size_t length, unsi
 	unsigned int treeByteSize = convert_HuffTree_to_bytes_anyStates(huffmanTree,nodeCount, &treeBytes);
 	//printf("treeByteSize = %d\n", treeByteSize);
 
-	*out = (unsigned char*)malloc(length*sizeof(int)+treeByteSize);
+	//8 header bytes precede the tree, and encode() stores whole 8-byte (16-byte) windows at its write cursor
+	*out = (unsigned char*)malloc(length*sizeof(int)+treeByteSize+8+16);
 	intToBytes_bigEndian(buffer, nodeCount);
 	memcpy(*out, buffer, 4);
 	intToBytes_bigEndian(buffer, huffmanTree->stateNum/2); //real number of intervals
